@@ -681,7 +681,7 @@ class StmtMixin:
             # vacuity guard (as for callee contracts): an invariant that contradicts the loop-head
             # state would make the rest provable; no surviving path at all is an error
             stat = self.site_stats.setdefault(f'loop {k} invariant', [0, 0])
-            if p.qf.check() == z3.unsat:
+            if not p.tainted and p.qf.check() == z3.unsat:
                 stat[1] += 1
                 raise Infeasible()
             stat[0] += 1
